@@ -529,6 +529,22 @@ Proof.
     { unfold get_bk in G. unfold put_bk. destruct (id =? 1); [injection G as <-|]; repeat split. }
     destruct F1 as (a1 & a2 & a3 & a4). repeat split; congruence.
 Qed.
+Lemma pay_rewards_module : forall cs bal target d, target <> MODULE ->
+  fold_left (fun b c => bal_add b target (fst c) (snd c)) cs bal MODULE d = bal MODULE d.
+Proof.
+  induction cs as [|c r IH]; intros bal target d H; cbn [fold_left]; [reflexivity|].
+  rewrite IH by assumption. rewrite bal_add_at. unfold MODULE in *. destruct (0 =? target) eqn:Q; [lia|]. cbn [andb]. lia.
+Qed.
+(* the whole handler: surplus of the listed baskets, then the pending staking rewards *)
+Lemma withdraw_step : forall v s ids target rewards s', step v s (OWithdraw ids target rewards) = Ok s' ->
+  exists s1, withdraw_ids s target ids = Ok s1 /\ s_bk s' = s_bk s1 /\ s_supply s' = s_supply s1 /\ s_sibs s' = s_sibs s1
+             /\ (target <> MODULE -> forall d, s_bal s' MODULE d = s_bal s1 MODULE d).
+Proof.
+  intros v s ids target rewards s' H. cbn [step] in H.
+  destruct (withdraw_ids s target ids) as [s1| |] eqn:E; cbn [bind] in H; try discriminate.
+  exists s1. split; [reflexivity|]. destruct (coins_valid rewards); injection H as <-; cbn [s_bk s_supply s_sibs s_bal]; repeat split.
+  intros Ht d. apply pay_rewards_module. exact Ht.
+Qed.
 Lemma create_books : forall v s new s', create v s new = Ok s' -> Books s -> Books s' /\ s_bk s' = s_bk s /\ s_supply s' = s_supply s.
 Proof.
   unfold create. intros v s new s' H [Ba Bb]. inv_ok H. injection H as <-. split; [|split; reflexivity].
@@ -543,7 +559,7 @@ Definition op_ok (o : op) : Prop :=
   | OMint _ a _ | OBurn _ a _ _ | OSwap _ a _ => a <> MODULE
   | OEdit _ => False
   | OUpsertHook se => se = false
-  | OWithdraw _ target => target <> MODULE
+  | OWithdraw _ target _ => target <> MODULE
   | _ => True
   end.
 Definition Inv (s : state) : Prop := Books s /\ fee_ok (s_bk s).
@@ -563,8 +579,12 @@ Proof.
     intros d'. cbn [with_bk s_bk s_bal s_sibs set_tokens b_tokens b_surplus]. rewrite (slash_token_rsum _ _ _ _ E d'). apply B2.
   - injection H as <-. split; assumption.
   - subst stake_enabled. cbn [andb] in H. injection H as <-. split; assumption.
-  - destruct (withdraw_ids_books _ _ _ _ H Hok B) as [B' (_ & _ & _ & Ff)]. split; [exact B'|]. unfold fee_ok in *. rewrite Ff. exact F.
+  - destruct (withdraw_step v s ids target rewards s' H) as (s1 & W1 & Eb & Es & Esib & Ebal).
+    destruct (withdraw_ids_books _ _ _ _ W1 Hok B) as [[Ba Bb] (_ & _ & _ & Ff)].
+    split; [|unfold fee_ok in *; rewrite Eb, Ff; exact F].
+    split; [rewrite Es, Eb; exact Ba|]. intros d. rewrite Eb, Esib, (Ebal Hok d). apply Bb.
   - destruct (create_books _ _ _ _ H B) as [B' [Eb _]]. split; [exact B'|]. rewrite Eb. exact F.
+  - injection H as <-. split; assumption.
 Qed.
 
 Theorem books_match_bank : forall v ops s, Forall op_ok ops -> Inv s -> Inv (run v s ops).
@@ -774,7 +794,7 @@ Definition op_okE (v : variant) (o : op) : Prop :=
   | OMint _ a _ | OBurn _ a _ _ | OSwap _ a _ => a <> MODULE
   | OEdit new => v_edit_keep v = true /\ fee_ok new
   | OUpsertHook se => se = false \/ v_upsert_skip v = true
-  | OWithdraw _ target => target <> MODULE
+  | OWithdraw _ target _ => target <> MODULE
   | _ => True
   end.
 
@@ -803,9 +823,12 @@ Proof.
   - injection H as <-. split; [exact B|split; [exact F|exact N]].
   - assert (K : stake_enabled && negb (v_upsert_skip v) = false) by (destruct Hok as [->| ->]; [reflexivity|destruct stake_enabled; reflexivity]).
     rewrite K in H. injection H as <-. split; [exact B|split; [exact F|exact N]].
-  - destruct (withdraw_ids_books _ _ _ _ H Hok B) as [B' (_ & Ft & _ & Ff)].
-    split; [exact B'|]. unfold fee_ok in *. rewrite Ff, Ft. split; [exact F|exact N].
+  - destruct (withdraw_step v s ids target rewards s' H) as (s1 & W1 & Eb & Es & Esib & Ebal).
+    destruct (withdraw_ids_books _ _ _ _ W1 Hok B) as [[Ba Bb] (_ & Ft & _ & Ff)].
+    split; [|unfold fee_ok in *; rewrite Eb, Ff, Ft; split; [exact F|exact N]].
+    split; [rewrite Es, Eb; exact Ba|]. intros d. rewrite Eb, Esib, (Ebal Hok d). apply Bb.
   - destruct (create_books _ _ _ _ H B) as [B' [Eb _]]. split; [exact B'|]. rewrite Eb. split; [exact F|exact N].
+  - injection H as <-. split; [exact B|split; [exact F|exact N]].
 Qed.
 
 Theorem books_match_bank_with_edits : forall v ops s, Forall (op_okE v) ops -> InvE s -> InvE (run v s ops).
@@ -1045,9 +1068,11 @@ Proof.
   - injection H as <-. split; [split; [exact F|split; [exact W|split; [exact N|exact S0]]]|unfold gap; cbn [s_bk s_supply]; lia].
   - assert (K : stake_enabled && negb (v_upsert_skip v) = false) by (destruct Hok as [->| ->]; [reflexivity|destruct stake_enabled; reflexivity]).
     rewrite K in H. injection H as <-. split; [split; [exact F|split; [exact W|split; [exact N|exact S0]]]|lia].
-  - destruct (withdraw_ids_frame _ _ _ _ H) as (Fs & Ft & _ & Ff).
-    split; [|unfold gap; rewrite Fs, Ft; lia]. unfold InvB, fee_ok in *. rewrite Ff, Ft, Fs. split; [exact F|split; [exact W|split; [exact N|exact S0]]].
+  - destruct (withdraw_step v s ids target rewards s' H) as (s1 & W1 & Eb & Es & _ & _).
+    destruct (withdraw_ids_frame _ _ _ _ W1) as (Fs & Ft & _ & Ff).
+    split; [|unfold gap; rewrite Es, Eb, Fs, Ft; lia]. unfold InvB, fee_ok in *. rewrite Es, Eb, Ff, Ft, Fs. split; [exact F|split; [exact W|split; [exact N|exact S0]]].
   - unfold create in H. inv_ok H. injection H as <-. split; [split; [exact F|split; [exact W|split; [exact N|exact S0]]]|unfold gap; cbn [s_bk s_supply]; lia].
+  - injection H as <-. split; [split; [exact F|split; [exact W|split; [exact N|exact S0]]]|unfold gap; cbn [s_bk s_supply]; lia].
 Qed.
 
 (* Over every such history the supply exceeds the weighted reserves by at most what it did at the
